@@ -140,7 +140,7 @@ type c11Case struct {
 	InnerTree *fexpr `json:"inner_tree,omitempty"`
 }
 
-var c11Stmts = []string{"leaf", "leaf-list", "container", "list", "choice", "case", "anyxml", "uses", "augment", "refine", "rpc", "notification", "action", "action-in-grouping", "notification-in-grouping", "action-in-augment", "notification-in-augment"}
+var c11Stmts = []string{"leaf", "leaf-list", "container", "list", "choice", "case", "anyxml", "uses", "augment", "refine", "rpc", "notification", "action", "action-in-grouping", "notification-in-grouping", "action-in-augment", "notification-in-augment", "case-in-uses-augment", "leaf-in-uses-augment"}
 
 func c11Yang(c c11Case) (string, map[string]string) {
 	q := "\"" + c.Expr + "\""
@@ -188,6 +188,12 @@ func c11Yang(c c11Case) (string, map[string]string) {
 		extra = "notification g { if-feature " + q + "; }"
 	case "action":
 		body = "action g { if-feature " + q + "; }"
+	case "case-in-uses-augment":
+		extra = "grouping grp { choice ch { case other { leaf ol { type string; } } } }"
+		body = "uses grp { augment \"ch\" { case g { if-feature " + q + "; leaf gl { " + in + "type string; } } } }"
+	case "leaf-in-uses-augment":
+		extra = "grouping grp { container gc { leaf gx { type string; } } }"
+		body = "uses grp { augment \"gc\" { leaf g { if-feature " + q + "; type string; } } }"
 	case "action-in-grouping":
 		extra = "grouping grp { action g { if-feature " + q + "; } leaf gl { type string; } }"
 		body = "uses grp;"
@@ -214,7 +220,13 @@ func c11Present(m *meta.Module, stmt string) (present bool, problem string) {
 		return false, "siblings of the guarded statement are missing"
 	}
 	switch stmt {
-	case "case":
+	case "leaf-in-uses-augment":
+		gc, _ := findDef(top, "gc").(*meta.Container)
+		if gc == nil || findDef(gc, "gx") == nil {
+			return false, "container gc of the used grouping (or its leaf gx) is missing"
+		}
+		return findDef(gc, "g") != nil, ""
+	case "case", "case-in-uses-augment":
 		ch, _ := findDef(top, "ch").(*meta.Choice)
 		if ch == nil {
 			return false, "choice ch missing"
@@ -268,7 +280,7 @@ func c11InnerPresent(m *meta.Module, stmt string) bool {
 			}
 		}
 		return false
-	case "case":
+	case "case", "case-in-uses-augment":
 		ch, _ := findDef(top, "ch").(*meta.Choice)
 		if ch == nil {
 			return false
@@ -396,7 +408,7 @@ func c11Gen(t *rapid.T) c11Case {
 		}
 		c.Expr = strings.Join(toks, " ")
 	}
-	if (c.Stmt == "container" || c.Stmt == "choice" || c.Stmt == "case") && rapid.Bool().Draw(t, "inner-guard") {
+	if (c.Stmt == "container" || c.Stmt == "choice" || c.Stmt == "case" || c.Stmt == "case-in-uses-augment") && rapid.Bool().Draw(t, "inner-guard") {
 		c.InnerTree = genFexpr(t, rapid.IntRange(0, 1).Draw(t, "inner-depth"))
 		c.Inner = c.InnerTree.String()
 	}
